@@ -1,6 +1,20 @@
 /* C09 (+ C11 spawn freedom): spifconf_parse_line delivers one line to the innermost open context.
- * Contract: contracts/conf.h (VERIF_CT_PARSE_LINE).  Handlers: re-bound to vhandler (env_conf.h 6a);
- * ctx_name_to_id: re-bound to v_ctx_lookup (env_conf.h 6b), proved here as C09.ctx_lookup. */
+ * Contract: contracts/conf.h (VERIF_CT_PARSE_LINE), written from the property statement by line class.
+ * Stated substitutions (contracts/env_conf.h sections 5b, 6):
+ *   - handlers: the call through context[id].handler is re-bound to the verification handler `vhandler` (6a);
+ *   - ctx_name_to_id: re-bound to the function v_ctx_lookup (6b), proved here as C09.ctx_lookup (loop contract) and
+ *     compared with the real macro in C09.lookup_equiv; the parse_line units use its contract as a model function;
+ *   - ctx_push / file_push: re-bound to model functions of the register_* contracts proved in C09.register_* (6c);
+ *   - spifconf_shell_expand / spifconf_open_file: bound by the --replace-calls pre-pass to model functions with the
+ *     text of their contracts (shell_expand: declared, owner C10; open_file: proved in C11.open_file);
+ *   - chomp / get_word / get_pword / temp_file: model functions with the text of their declared contracts.
+ *   (Each call replaced by DFCC itself costs nine arrays indexed by object number; with the dozen call sites of this
+ *   function the SAT instance had 20M variables.  The enforced function itself is checked by DFCC in full.)
+ * Units (behaviour split, disjoint extra preconditions):
+ *   parse_line                a directive word follows a '%' (or the line is not a directive); not "second %preproc"
+ *   parse_line_preproc_again  a %preproc line in a file that was already preprocessed  -> finding C09-preproc-shadow-fp
+ *   parse_line_bare_pct       '%' not followed by a plain character (no directive word) -> finding C11-bare-percent
+ * Run time: 4-8 minutes each (4M SAT variables), which is why the two finding units are `quick: no`. */
 
 /*@unit
 name: ctx_lookup
